@@ -4,14 +4,23 @@
    vprint/vread whose only law, vread (vprint v ++ rest) = Some (v, rest), is a hypothesis of
    the round-trip theorems alone) and BinFormat.v (binary, over byte lists, no oracle).
 
-   Readers come in two versions selected by flags: the code as it is (mm_current /
-   read_crs false) and the repaired code (mm_checked / read_crs true).  The safety part of
-   the property (A5) is REFUTED for the current readers (theorems named ..._refuted, each a concrete
-   damaged file, replayed on the real code under AddressSanitizer by tools/props/C19.py)
-   and PROVED for the repaired readers (theorems named ..._checked_safe): that is the target the fixed code
-   must meet; the correspondence is switched to it by the flags at the top of C19.py.
-   Error EOOB is the model-level image of an out-of-bounds access (all indexing in the models
-   goes through bounds-checked accessors), so "never EOOB" is a theorem, not an artefact. *)
+   The readers of /repo are modelled by mm_checked / read_crs true (all preconditions of the
+   fix: commits f41c045, 60b70e9, d94af74, 436f08e).  These are the models the correspondence
+   harness (tools/props/C19.py, default flags "1111") runs against the real code, and the
+   MAIN SAFETY THEOREMS are about them:
+       C19_mm_read_checked_safe, C19_mm_readd_checked_safe, C19_bin_read_checked_safe
+   (every file / byte list, every value oracle, every row range: exception or structurally
+   valid matrix, never an out-of-bounds access).  Error EOOB is the model-level image of an
+   out-of-bounds access (all indexing in the models goes through bounds-checked accessors), so
+   "never EOOB" is a theorem, not an artefact.  Round trip, row-range, symmetric-expansion and
+   error theorems hold for any flags, hence for the readers as they are.
+
+   HISTORICAL: the theorems named ..._refuted / ..._example at the end of each part are about
+   the readers BEFORE the repairs (mm_current = all checks off, read_crs false).  Each is a
+   concrete damaged file on which the old reader returned an invalid matrix or indexed out of
+   bounds; each was replayed on the old code under AddressSanitizer (findings C19-*, status
+   fixed) and is still replayed every run on the current code, which now rejects it
+   (C19_mm_read_checked_rejects_damaged, C19_bin_read_checked_rejects_witness). *)
 From Coq Require Import List ZArith String.
 From Amgcl Require Import IoProofs.
 Import ListNotations.
@@ -54,7 +63,7 @@ Theorem C19_sort_row_spec :
 Proof. exact sort_row_perm_sorted. Qed.
 Print Assumptions C19_sort_row_spec.
 
-(* A1: mm_read (mm_write A) = Ok (sort_rows A), any flags (current and repaired reader) *)
+(* A1: mm_read (mm_write A) = Ok (sort_rows A), any flags (so: the reader as it is) *)
 Theorem C19_mm_roundtrip :
   forall (V : Type) (vwidth : Z) (vprint : V -> list string)
            (vread : list string -> option (V * list string)),
@@ -250,7 +259,7 @@ Theorem C19_mm_wrong_kind_is_error :
 Proof. exact mm_wrong_kind_is_error. Qed.
 Print Assumptions C19_mm_wrong_kind_is_error.
 
-(* A4 (repaired reader): inconsistent sizes -- an index outside the announced shape => exception *)
+(* A4 (reader as it is): inconsistent sizes -- an index outside the announced shape => exception *)
 Theorem C19_mm_checked_index_is_error :
   forall (V : Type) (vread : list string -> option (V * list string))
            (fl : mm_flags) (symm : bool) (n m r0 r1 : Z) 
@@ -272,7 +281,7 @@ Theorem C19_mm_checked_index_is_error :
 Proof. exact mm_checked_index_out_of_range_is_error_at. Qed.
 Print Assumptions C19_mm_checked_index_is_error.
 
-(* A4 (repaired reader): more data than announced => exception *)
+(* A4 (reader as it is): more data than announced => exception *)
 Theorem C19_mm_checked_trailing_is_error :
   forall (V : Type) (vwidth : Z)
            (vread : list string -> option (V * list string)) 
@@ -289,7 +298,7 @@ Theorem C19_mm_checked_trailing_is_error :
 Proof. exact mm_checked_trailing_is_error. Qed.
 Print Assumptions C19_mm_checked_trailing_is_error.
 
-(* A5 TARGET for the repaired reader: every file, every value oracle, every range: exception or wf matrix, never out of bounds *)
+(* A5 MAIN SAFETY THEOREM (reader as it is): every file, every value oracle, every range: exception or wf matrix, never out of bounds *)
 Theorem C19_mm_read_checked_safe :
   forall (V : Type) (vwidth : Z)
            (vread : list string -> option (V * list string)) 
@@ -301,7 +310,7 @@ Theorem C19_mm_read_checked_safe :
 Proof. exact mm_read_checked_safe. Qed.
 Print Assumptions C19_mm_read_checked_safe.
 
-(* A5 dense, repaired reader *)
+(* A5 MAIN SAFETY THEOREM, dense reader as it is *)
 Theorem C19_mm_readd_checked_safe :
   forall (V : Type) (vwidth : Z)
            (vread : list string -> option (V * list string)) 
@@ -314,7 +323,7 @@ Theorem C19_mm_readd_checked_safe :
 Proof. exact mm_readd_checked_safe. Qed.
 Print Assumptions C19_mm_readd_checked_safe.
 
-(* what does hold for the CURRENT reader: no out-of-bounds access for 0 <= row_beg <= row_end *)
+(* HISTORICAL (pre-repair reader; holds for any flags): no out-of-bounds access for 0 <= row_beg <= row_end *)
 Theorem C19_mm_read_no_oob_proper_range :
   forall (V : Type) (vwidth : Z)
            (vread : list string -> option (V * list string)) 
@@ -339,7 +348,7 @@ Theorem C19_mm_read_current_no_oob_default_range :
 Proof. exact mm_read_current_no_oob_default_range. Qed.
 Print Assumptions C19_mm_read_current_no_oob_default_range.
 
-(* A5 REFUTED for the current reader: damaged file (column digit 2 -> 9) is accepted, result not wf *)
+(* HISTORICAL, reader before f41c045 (mm_current): damaged file (column digit 2 -> 9) is accepted, result not wf *)
 Theorem C19_mm_read_safe_refuted :
   exists (f : list line) (A : crs string),
            mm_read string 8
@@ -352,7 +361,7 @@ Theorem C19_mm_read_safe_refuted :
 Proof. exact mm_read_safe_refuted. Qed.
 Print Assumptions C19_mm_read_safe_refuted.
 
-(* A4 refuted (current): row index 9 > nrows: entry silently dropped *)
+(* HISTORICAL, reader before f41c045 / 436f08e (mm_current): row index 9 > nrows: entry silently dropped *)
 Theorem C19_mm_read_row_dropped_refuted :
   mm_read string 8 vread_tok mm_current KReal mm_damaged_row (-1) (-1) =
          Ok
@@ -366,7 +375,7 @@ Theorem C19_mm_read_row_dropped_refuted :
 Proof. exact mm_read_row_dropped_refuted. Qed.
 Print Assumptions C19_mm_read_row_dropped_refuted.
 
-(* the repaired reader rejects both witnesses *)
+(* the reader as it is rejects both historical witnesses *)
 Theorem C19_mm_read_checked_rejects_damaged :
   mm_read string 8 vread_tok mm_checked KReal mm_damaged_col (-1) (-1) =
          Error EFormat /\
@@ -375,21 +384,21 @@ Theorem C19_mm_read_checked_rejects_damaged :
 Proof. exact mm_read_checked_rejects_damaged. Qed.
 Print Assumptions C19_mm_read_checked_rejects_damaged.
 
-(* A5 refuted (current): row_beg = 4 > n = 3: ptr.back() of an empty vector *)
+(* HISTORICAL, reader before 60b70e9 / d94af74 (checks off): row_beg = 4 > n = 3: ptr.back() of an empty vector *)
 Theorem C19_mm_read_range_oob_refuted :
   exists f : list line,
            mm_read string 8 vread_tok mm_current KReal f 4 (-1) = Error EOOB.
 Proof. exact mm_read_range_oob_refuted. Qed.
 Print Assumptions C19_mm_read_range_oob_refuted.
 
-(* A5 refuted (current): size line '-1 1 0', default range *)
+(* HISTORICAL, reader before 60b70e9 / d94af74 (checks off): size line '-1 1 0', default range *)
 Theorem C19_mm_read_negative_n_oob_refuted :
   exists f : list line,
            mm_read string 8 vread_tok mm_current KReal f (-1) (-1) = Error EOOB.
 Proof. exact mm_read_negative_n_oob_refuted. Qed.
 Print Assumptions C19_mm_read_negative_n_oob_refuted.
 
-(* A5 refuted (current, dense): size line '-3 -2' accepted, 6 never-written values *)
+(* HISTORICAL, dense reader before 60b70e9 (mm_current): size line '-3 -2' accepted, 6 never-written values *)
 Theorem C19_mm_readd_safe_refuted :
   exists (f : list line) (d : dense string),
            mm_readd string 8 vread_tok mm_current KReal f (-1) (-1) = Ok d /\
@@ -399,7 +408,7 @@ Theorem C19_mm_readd_safe_refuted :
 Proof. exact mm_readd_safe_refuted. Qed.
 Print Assumptions C19_mm_readd_safe_refuted.
 
-(* A4 refuted (current): data beyond the announced count is ignored; the repaired reader throws *)
+(* HISTORICAL, reader before f41c045 / 436f08e (mm_current): data beyond the announced count is ignored; the reader as it is throws *)
 Theorem C19_mm_trailing_example :
   mm_read string 8 vread_tok mm_current KReal mm_trailing (-1) (-1) =
          Ok
@@ -553,7 +562,7 @@ Theorem C19_bin_dense_truncated_is_error :
 Proof. exact bin_readd_truncated_is_error. Qed.
 Print Assumptions C19_bin_dense_truncated_is_error.
 
-(* A5 TARGET for the repaired read_crs: every byte list, every range *)
+(* A5 MAIN SAFETY THEOREM (read_crs as it is): every byte list, every range *)
 Theorem C19_bin_read_checked_safe :
   forall (n_signed : bool) (vw : Z) (f : list Z) (r0 r1 : Z),
          (0 < vw)%Z ->
@@ -564,14 +573,14 @@ Theorem C19_bin_read_checked_safe :
 Proof. exact bin_read_checked_safe. Qed.
 Print Assumptions C19_bin_read_checked_safe.
 
-(* read_dense never indexes out of bounds (current and repaired) *)
+(* read_dense never indexes out of bounds (before and after the repairs) *)
 Theorem C19_bin_readd_no_oob :
   forall (checked n_signed : bool) (vw : Z) (f : list Z) (r0 r1 : Z),
          read_dense checked n_signed vw f r0 r1 <> Error EOOB.
 Proof. exact bin_readd_checked_safe. Qed.
 Print Assumptions C19_bin_readd_no_oob.
 
-(* the repair does not change the result on files it accepts *)
+(* the repairs did not change the result on files the reader accepts *)
 Theorem C19_bin_read_current_agrees_on_valid :
   forall (n_signed : bool) (vw : Z) (f : list Z) (r0 r1 : Z) (A : flat),
          read_crs true n_signed vw f r0 r1 = Ok A ->
@@ -579,20 +588,20 @@ Theorem C19_bin_read_current_agrees_on_valid :
 Proof. exact bin_read_current_wf_input_safe. Qed.
 Print Assumptions C19_bin_read_current_agrees_on_valid.
 
-(* A5 REFUTED for the current read_crs: ptr = [0;1000;2;3] => sort_row out of bounds (ASan: heap-buffer-overflow) *)
+(* HISTORICAL, read_crs before d94af74 (checked = false): ptr = [0;1000;2;3] => sort_row out of bounds (ASan: heap-buffer-overflow) *)
 Theorem C19_bin_read_safe_refuted :
   exists f : list Z, read_crs false false 8 f (-1) (-1) = Error EOOB.
 Proof. exact bin_read_safe_refuted. Qed.
 Print Assumptions C19_bin_read_safe_refuted.
 
-(* A5 refuted (current): ptr = [0;2;1;3] returned as is *)
+(* HISTORICAL, reader before 60b70e9 / d94af74 (checks off): ptr = [0;2;1;3] returned as is *)
 Theorem C19_bin_read_invalid_refuted :
   exists (f : list Z) (A : flat),
            read_crs false false 8 f (-1) (-1) = Ok A /\ wf_flat A = false.
 Proof. exact bin_read_invalid_refuted. Qed.
 Print Assumptions C19_bin_read_invalid_refuted.
 
-(* A5 refuted (current): n = 1, row_beg = 2: ptr.front() of an empty vector *)
+(* HISTORICAL, reader before 60b70e9 / d94af74 (checks off): n = 1, row_beg = 2: ptr.front() of an empty vector *)
 Theorem C19_bin_read_range_oob_refuted :
   exists f : list Z,
            read_crs false true 8 f 2 (-1) = Error EOOB /\
